@@ -17,13 +17,23 @@ FRAG_RING_STUB = ("pub const TPC_ANODE_WIRES: usize = 256;\n"
                   "pub fn problem_dimensions(_w: &[Option<Vec<f64>>; 256], _r: (usize, usize)) -> (usize, usize) { unimplemented!() }\n")
 
 
-def _frag(repo, verif, unit, path, stub):
+FRAG_HOUGH_STUB = ("struct HoughSpaceAccumulator { rho_bins: u32, theta_bins: u32, accumulator: IndexMap<(u32, u32), Vec<SpacePoint>> }\n"
+                   "impl HoughSpaceAccumulator {\n"
+                   "    fn get_bins(&self, _p: SpacePoint) -> Vec<(u32, u32)> { unimplemented!() }\n"
+                   "    fn add(&mut self, _p: SpacePoint) { unimplemented!() }\n"
+                   "    fn remove_unchecked(&mut self, _p: SpacePoint) { unimplemented!() }\n"
+                   "    fn most_popular(&self) -> Vec<SpacePoint> { unimplemented!() }\n}\n")
+
+
+def _frag(repo, verif, unit, path, stub, force_stub=False):
     """write the plain-Rust fragment unit, or its stub (with FRAG_*_OK = false) when the anchor is lost"""
     import sys
     sys.path.insert(0, verif)
     from vtool import vspec, extract
-    flag = "FRAG_RING_OK" if unit == "__missing__" else unit.upper() + "_OK"
+    flag = unit.upper() + "_OK"
     try:
+        if force_stub:
+            raise RuntimeError("the verbatim text does not compile inside its wrapper")
         u = vspec.parse(os.path.join(verif, "contracts", unit + ".vspec"))
         text = extract.UnitBuilder(repo, os.path.join(verif, "contracts", "lib"), u).build()
         text += f"pub const {flag}: bool = true;\n"
@@ -51,8 +61,9 @@ uom = {{ version = "0.35.0", optional = true }}
 alpha-g-analysis = {{ path = "{os.path.abspath(repo)}/analysis", optional = true }}
 serde_json = "1"
 crc32c = "0.6.4"
+indexmap = {{ version = "2.1.0", optional = true }}
 [features]
-physics = ["alpha_g_physics", "uom", "alpha-g-analysis"]
+physics = ["alpha_g_physics", "uom", "alpha-g-analysis", "indexmap"]
 [profile.release]
 debug-assertions = true
 overflow-checks = true
@@ -73,6 +84,7 @@ opt-level = 1
     os.makedirs(fdir, exist_ok=True)
     env["VERIF_FRAG_DIR"] = fdir
     _frag(repo, verif, "frag_ring", os.path.join(fdir, "frag_ring.rs"), FRAG_RING_STUB)
+    _frag(repo, verif, "frag_hough", os.path.join(fdir, "frag_hough.rs"), FRAG_HOUGH_STUB)
     # always try the full build (detector + physics) so that the binary does not flip between feature sets; fall back to the
     # detector-only build when physics does not compile and the caller does not need it
     exe = os.path.join(env["CARGO_TARGET_DIR"], "release", "verif_replay")
@@ -80,10 +92,14 @@ opt-level = 1
                        capture_output=True, text=True, timeout=3600)
     if r.returncode == 0:
         return exe, None
-    if "frag_ring.rs" in (r.stderr or ""):
-        # the verbatim fragment does not compile in its wrapper (e.g. a changed signature): stub it (check c13_dims -> undecided)
-        # so that every other native check keeps working
-        _frag(repo, verif, "__missing__", os.path.join(fdir, "frag_ring.rs"), FRAG_RING_STUB)
+    stubbed = False
+    for unit, stub in (("frag_ring", FRAG_RING_STUB), ("frag_hough", FRAG_HOUGH_STUB)):
+        if unit + ".rs" in (r.stderr or ""):
+            # the verbatim fragment does not compile in its wrapper (e.g. a changed signature): stub it (its check -> undecided)
+            # so that every other native check keeps working
+            _frag(repo, verif, unit, os.path.join(fdir, unit + ".rs"), stub, force_stub=True)
+            stubbed = True
+    if stubbed:
         r = subprocess.run(["cargo", "build", "--release", "--offline", "-q", "--features", "physics"], cwd=wd, env=env,
                            capture_output=True, text=True, timeout=3600)
         if r.returncode == 0:
@@ -96,7 +112,7 @@ opt-level = 1
     return exe, None
 
 
-PHYSICS_OPS = {"c09_pad", "c13_sym", "c13_full_ring", "c09_event", "c10_table", "c18_grid", "c15_cluster", "c15_vertex", "event", "c19_sort"}
+PHYSICS_OPS = {"c09_pad", "c13_sym", "c13_full_ring", "c09_event", "c10_table", "c18_grid", "c15_cluster", "c15_vertex", "c15_acc", "event", "c19_sort"}
 
 
 def run(repo, verif, prop, checks, seed, tier):
